@@ -1,0 +1,9 @@
+//go:build verif
+
+package server
+
+import "time"
+
+// VerifSetShareDelay replaces the sleep the share handler performs
+// before refusing a request.
+func VerifSetShareDelay(fn func(time.Duration)) { timeSleep = fn }
